@@ -8,7 +8,8 @@ def main() -> None:
 	src_dir, cache_dir, module = sys.argv[1], sys.argv[2], sys.argv[3]
 	from rogw.tranp.app.env import SourceEnvPath
 	from vf.session import Session
-	s = Session(cache_dir=cache_dir, extra_definitions={'rogw.tranp.app.env.SourceEnvPath': lambda: SourceEnvPath.instantiate([src_dir])})
+	import os
+	s = Session(cache_dir=cache_dir, extra_definitions={'rogw.tranp.app.env.SourceEnvPath': lambda: SourceEnvPath.instantiate([src_dir])}, config=os.environ.get('VF_C04_CONFIG') or 'example/config.yml')
 	if len(sys.argv) > 4:
 		with open(sys.argv[4], encoding='utf-8') as f:
 			s.set_source(module, f.read())
